@@ -66,9 +66,10 @@ type Result struct {
 // Script says what each side does after the handshake: writes in the given fragment sizes,
 // then closes (CloseNotify); both sides read until EOF/error.
 type Script struct {
-	ClientSend, ServerSend   []byte
-	ClientFrags, ServerFrags []int // write sizes, cycled; nil = one write
-	NoData                   bool  // handshake only, then close
+	ClientSend, ServerSend       []byte
+	ClientFrags, ServerFrags     []int // write sizes, cycled; nil = one write
+	NoData                       bool  // handshake only, then close
+	ClientReadBuf, ServerReadBuf int   // size of the buffer passed to Read (0 = 16384)
 	// Hooks to install MITM filters before anything is sent.
 	Setup                  func(client, server *wire.Conn)
 	ClientAddr, ServerAddr string
@@ -133,7 +134,10 @@ func RunInto(res *Result, ccfg, scfg *gmtls.Config, sc Script) *Result {
 	if sc.Setup != nil {
 		sc.Setup(cw, sw)
 	}
-	side := func(ep *Endpoint, conn *gmtls.Conn, send []byte, frags []int) {
+	side := func(ep *Endpoint, conn *gmtls.Conn, send []byte, frags []int, rbuf int) {
+		if rbuf <= 0 {
+			rbuf = 16384
+		}
 		ep.Conn = conn
 		ep.Panic = hx.Try(func() {
 			ep.HSErr = conn.Handshake()
@@ -156,7 +160,7 @@ func RunInto(res *Result, ccfg, scfg *gmtls.Config, sc Script) *Result {
 				}
 				conn.CloseWrite()
 			})
-			buf := make([]byte, 16384)
+			buf := make([]byte, rbuf)
 			for {
 				n, err := conn.Read(buf)
 				ep.Received = append(ep.Received, buf[:n]...)
@@ -179,8 +183,8 @@ func RunInto(res *Result, ccfg, scfg *gmtls.Config, sc Script) *Result {
 		}
 	}
 	done := hub.GoAll(
-		func() { side(&res.Client, gmtls.Client(cw, ccfg), sc.ClientSend, sc.ClientFrags) },
-		func() { side(&res.Server, gmtls.Server(sw, scfg), sc.ServerSend, sc.ServerFrags) })
+		func() { side(&res.Client, gmtls.Client(cw, ccfg), sc.ClientSend, sc.ClientFrags, sc.ClientReadBuf) },
+		func() { side(&res.Server, gmtls.Server(sw, scfg), sc.ServerSend, sc.ServerFrags, sc.ServerReadBuf) })
 	<-done[0]
 	<-done[1]
 	res.Stalled = hub.Stalled
